@@ -152,6 +152,12 @@ func (c *compiler) evaluateAssertions() error {
 func (c *compiler) assembleLine(in sourceLine) (Instruction, error) {
 	opLower := strings.ToLower(in.op)
 	var aMode, bMode AddressMode
+
+	// ICWS'88 only knows the addressing modes # $ @ <
+	getAddressMode := getAddressMode
+	if c.config.Mode == ICWS88 {
+		getAddressMode = getAddressMode88
+	}
 	if in.amode == "" {
 		if c.config.Mode == ICWS88 && opLower == "dat" {
 			aMode = IMMEDIATE
